@@ -4,4 +4,4 @@ import FixModel.Generated.Facts
 # the connection models' tie to the source (T-gen), shared by C04 C13 C19 C20
 -/
 
-theorem conn_skeleton : Generated.connSkeleton = ConnSkeleton.expected := by decide
+theorem conn_skeleton : Generated.connSkeleton = ConnSkeleton.expected := by decide +kernel
